@@ -2,12 +2,14 @@
 (* TLC judges recorded calls of the real parse_residue_spec and AnnotateMutMod.run_system.
    parse : [kind |-> "parse", s : Seq(char), chain, resname, resid, err : BOOLEAN]     (chain = <<"?nochain">> when absent)
    law   : [kind |-> "law", chain, resname, resid]  - TLC checks ParseOp(Format(t)) = t for a well-formed triple
-   run   : [kind |-> "run", system, reqs, err : BOOLEAN, reported : Seq(request index),
-            mods / muts : Seq(Seq(Seq(target)))  per molecule, per residue  (all atoms of a residue agree, else <<"!">>) ]  *)
+   run   : [kind |-> "run", system, reqs : Seq([spec, target, kind, known]), err : BOOLEAN, reported : Seq(<<spec, kind, target>>),
+            mods / muts : Seq(Seq(Seq(target)))  per molecule, per residue  (all atoms of a residue agree, else << <<"!">> >>) ]  (MutMod!JudgeRunS)
+   cli   : a real bin/martinize2 run, the system recorded right after AnnotateMutMod (MutMod!JudgeCli)
+   itp   : the molecule types that run wrote (MutMod!JudgeItp)  *)
 EXTENDS MutMod, Json, IOUtils
 Batch == JsonDeserialize(IOEnv.TRACE_FILE)
-VARIABLES tid, verdict
-vars == <<tid, verdict>>
+VARIABLES tid, verdict, note
+vars == <<tid, verdict, note>>
 
 JudgeParse(e) ==
   LET p == ParseOp(e.s) IN
@@ -23,22 +25,12 @@ JudgeLaw(e) ==
   LET p == ParseOp(Format(e.chain, e.resname, e.resid)) IN
   IF p.bad \/ p.chain # e.chain \/ p.resname # e.resname \/ p.resid # e.resid THEN "parse-of-format-is-not-identity" ELSE "ok"
 
-JudgeRun(e) ==
-  IF IsError(e.system, e.reqs) THEN (IF e.err THEN "ok" ELSE "unknown-target-not-an-error")
-  ELSE IF e.err THEN "run-failed-without-unknown-target"
-  ELSE IF {e.reported[i] : i \in DOMAIN e.reported} # Unmatched(e.system, e.reqs) THEN
-          (IF \E q \in Unmatched(e.system, e.reqs) : q \notin {e.reported[i] : i \in DOMAIN e.reported}
-           THEN "unmatched-request-not-reported" ELSE "matched-request-reported-as-unmatched")
-  ELSE IF Len(e.reported) # Cardinality(Unmatched(e.system, e.reqs)) THEN "request-reported-twice"
-  ELSE IF \E k \in DOMAIN e.system : \E i \in DOMAIN e.system[k].res :
-             e.mods[k][i] # Marks(e.system, e.reqs, k, i, "modification") \/ e.muts[k][i] # Marks(e.system, e.reqs, k, i, "mutation")
-       THEN "residue-marks-differ"
-  ELSE "ok"
-
-Init == tid \in 1..Len(Batch) /\ verdict = "pending"
+Init == tid \in 1..Len(Batch) /\ verdict = "pending" /\ note = "-"
 Eval == /\ verdict = "pending"
-        /\ verdict' = LET e == Batch[tid] IN
-                      IF e.kind = "parse" THEN JudgeParse(e) ELSE IF e.kind = "law" THEN JudgeLaw(e) ELSE JudgeRun(e)
+        /\ LET e == Batch[tid] IN
+           /\ verdict' = IF e.kind = "parse" THEN JudgeParse(e) ELSE IF e.kind = "law" THEN JudgeLaw(e)
+                         ELSE IF e.kind = "cli" THEN JudgeCli(e) ELSE IF e.kind = "itp" THEN JudgeItp(e) ELSE JudgeRunS(e)
+           /\ note' = IF e.kind = "cli" THEN NoteCli(e) ELSE IF e.kind = "run" THEN NoteRunS(e) ELSE "-"
         /\ UNCHANGED tid
 Spec == Init /\ [][Eval]_vars
 =============================================================================
